@@ -4,7 +4,7 @@ use crate::gen;
 use crate::runner::{CheckSpec, Family, Judge};
 
 pub fn all_props() -> Vec<&'static str> {
-    vec!["C02", "C03", "C04", "C08", "C09", "C10", "C11", "C16", "C17", "C18"]
+    vec!["C02", "C03", "C04", "C06", "C08", "C09", "C10", "C11", "C16", "C17", "C18"]
 }
 
 const REAL_RUST: &[&str] = &["/repo/src (blake3 crate, built from the working tree with --cfg blake3_team_blake3_verif)", "rayon-core", "memmap2", "digest", "zeroize", "arrayvec", "kernel VFS (scratch files)"];
@@ -54,7 +54,10 @@ pub fn spec(prop: &str) -> Option<CheckSpec> {
             prop: "C08",
             level: "exploration",
             rule: "Each run: update_with_join (the generic function behind update_rayon) driven through the scripted Join hook: per recursive split the plan decides left-first / right-first / concurrent (concurrent halves become child tasks interleaved by the baton scheduler at every kernel dispatch; pool width 1-8, saturated pools run inline). Inputs of 2..300 chunks (1024 thorough) after odd prefixes, levels forced so that degree 1/4/8/16 recursion shapes all occur. A sixth of the runs use real rayon pools (width 1,2,4,16) and update_mmap_rayon. Oracle: the state must be what serial update leaves: count(), finalize and 131 XOF bytes equal the one-shot function on the bytes absorbed, and the continuation (one more fragment, finalize again) agrees too. distinct_nontrivial = distinct schedule signatures + state shapes.",
-            families: vec![Family { name: "c08", gen: gen::c08, quick: 60_000, thorough: 2_000_000, judge: Judge::Exec }],
+            families: vec![
+                Family { name: "c08", gen: gen::c08, quick: 60_000, thorough: 2_000_000, judge: Judge::Exec },
+                Family { name: "c08-c-tbb", gen: gen::c08_c, quick: 30_000, thorough: 1_000_000, judge: Judge::Exec },
+            ],
             real: REAL_RUST.to_vec(),
             stubs: vec!["the thread pool behind Join is the simulator (scripted VerifJoin hook) in 5/6 of the runs; real rayon-core in the rest", "C blake3_hasher_update_tbb: see c06/c08-c families (oneTBB absent; the harness implements the TBB link seam)"],
             assumptions: vec!["interleaving granularity = kernel dispatch (hook H2); finer-grained races are left to the Miri tier"],
@@ -63,7 +66,10 @@ pub fn spec(prop: &str) -> Option<CheckSpec> {
             prop: "C18",
             level: "exploration",
             rule: "Each run: 2-6 simulated caller tasks, each with its own program over its own instances (hasher histories through update/Write/Read adapters, XOF reader histories with seeks, one-shot calls), each task forced to its own SIMD level, interleaved by the baton scheduler at every kernel dispatch, detect() call, reader call and operation boundary (uniform / sticky / bursty schedules). Oracle (Solo): every task program is also executed alone and every operation must return the same bytes under interleaving; the per-operation oracles of C02/C03 apply as well. distinct_nontrivial = distinct schedule signatures + state shapes.",
-            families: vec![Family { name: "c18", gen: gen::c18, quick: 40_000, thorough: 1_500_000, judge: Judge::Solo }],
+            families: vec![
+                Family { name: "c18", gen: gen::c18, quick: 40_000, thorough: 1_500_000, judge: Judge::Solo },
+                Family { name: "c18-mixed-c", gen: gen::c18_mixed, quick: 30_000, thorough: 1_000_000, judge: Judge::Solo },
+            ],
             real: REAL_RUST.to_vec(),
             stubs: vec!["Rust cpufeatures detection cache is real but not schedulable (macro-generated private static): first-use race covered only by the process-level tier"],
             assumptions: vec!["interleaving granularity = hook sites; state that two tasks could corrupt for each other must live across a kernel call to be seen here"],
@@ -114,6 +120,18 @@ pub fn spec(prop: &str) -> Option<CheckSpec> {
             real: REAL_RUST.to_vec(),
             stubs: vec![],
             assumptions: vec!["padding inside these types is < 8 bytes (true for the current layout), so 8-byte windows cannot be padding", "object memory is read through a raw pointer (release build, not Miri)"],
+        }),
+        "C06" => Some(CheckSpec {
+            prop: "C06",
+            level: "exploration",
+            rule: "Each run drives the C library (c/blake3.c + dispatcher + every kernel; assembly flavour and C-intrinsics flavour both linked, chosen per hasher) through blake3_hasher_* only: initialiser in {init, init_keyed, init_derive_key, init_derive_key_raw (any bytes, embedded NUL, > 1 chunk)}, updates cut like the C02 delivery scripts (zero-length updates with a dangling pointer included; update_tbb with the simulator as the TBB seam in the tbb family), interleaved finalize(out_len) / finalize_seek(seek, out_len) with the C03 position distribution, reset, struct-copy clones; the CPU feature mask of the run is a random subset of the detected mask (AVX512VL without AVX512F included). Oracle: output = SpecModel S[seek..seek+out_len] = the Rust crate's bytes on the same history; hasher fields unchanged by finalize and by zero-length updates; reset = freshly initialised fields; both derive-key initialisers agree; canaries around every output buffer. distinct_nontrivial = distinct (flavour x state x seek alignment x length class) shapes.",
+            families: vec![
+                Family { name: "c06", gen: gen::c06, quick: 60_000, thorough: 4_000_000, judge: Judge::Exec },
+                Family { name: "c06-tbb", gen: gen::c06_tbb, quick: 30_000, thorough: 1_000_000, judge: Judge::Exec },
+            ],
+            real: vec!["/repo/c: blake3.c, blake3_dispatch.c, blake3_portable.c, the four unix .S kernels (ca_ flavour) and blake3_{sse2,sse41,avx2,avx512}.c (ci_ flavour), compiled from the working tree by the harness build.rs", "/repo/src (Rust twin)"],
+            stubs: vec!["oneTBB parallel_invoke (blake3_tbb.cpp is not compiled; the simulator implements blake3_compress_subtree_wide_join_tbb)"],
+            assumptions: vec!["SpecModel", "BLAKE3_TESTING makes g_cpu_features settable; masks are subsets of what the CPU supports"],
         }),
         _ => None,
     }
